@@ -13,6 +13,12 @@ META = {
         "Trusts the hash function; writes through plain-ndarray escapes (.view(np.ndarray), np.asarray, memoryview) and writes into the user array a TrackedArray was created from are outside the domain (see evidence assumptions).",
         "DESIGN.md section 4 C02",
     ),
+    "C09": (
+        "model-based stateful generation (operation histories interpreted against a dict-of-parent reference forest), all-pairs path-product oracle after every step, plus enumeration of short structural histories",
+        "Generated histories (<=14 steps; update by matrix/quaternion/axis-angle/translation, re-parent, remove_node, base-frame change, graph[x]=M, remove_geometries, copy, edge-list round trip) applied to a real SceneGraph and to a reference forest; after every step get(to, from) for every ordered pair of live frames must equal the explicit product of current edge matrices along the path (ValueError iff disconnected), plus the group laws and structure queries (children, successors, nodes_geometry, to_flattened, to_edgelist). An enumerated family of 6-step structural histories over 3 names covers every short re-parent/remove/re-add interleaving. Exploration: no absence proof.",
+        "Histories stay within forests (no cycles) and query only existing frames; matrices are kept away from the documented 1e-8/1e-5 numeric shortcuts; numpy linear algebra trusted.",
+        "DESIGN.md section 4 C09",
+    ),
     "C06": (
         "hypothesis generators aimed at bit-packing limits + exhaustive enumeration of short sequences, dict/tuple grouping oracle",
         "Generated search with an independent element-by-element oracle: Hypothesis integer/float row arrays built around the 2^15/2^20/2^31/2^63 packing limits for every column count and dtype, plus complete enumeration of blocks() over all sequences of length<=7 (quick) / <=9 (thorough) on a 3-letter alphabet x every option combination. Does not prove absence; the enumerated sub-domains are complete.",
